@@ -483,6 +483,80 @@ Proof.
 Qed.
 Print Assumptions legal_chans_unique.
 
+(* ---------- Corr.boundary_ok (the comparator's determined regime) gives NoTie ---------- *)
+Lemma sorted_cut_count (s : list Z) (n : nat) : StronglySorted Z.le s -> (1 <= n <= length s)%nat ->
+  (n = length s \/ nth (n - 1) s (-1) <> nth n s (-2)) ->
+  length (filter (fun x => x <=? nth (n - 1) s (-1)) s) = n.
+Proof.
+  intros Hs Hn Hcut. set (D := nth (n - 1) s (-1)) in *.
+  destruct (nth_split s (-1) (n := (n - 1)%nat)) as (l1 & l2 & Heq & Hlen); [lia|].
+  fold D in Heq.
+  assert (H1 : Forall (fun y => y <= D) l1) by (rewrite Heq in Hs; apply SS_split in Hs; tauto).
+  assert (Hfl1 : filter (fun x => x <=? D) l1 = l1).
+  { apply filter_all. eapply Forall_impl; [|exact H1]. cbv beta. intros a Ha. lia. }
+  destruct l2 as [|y l2].
+  - rewrite Heq, filter_app, Hfl1. cbn [filter]. replace (D <=? D) with true by lia.
+    rewrite app_length. cbn [length]. lia.
+  - assert (Hy : nth n s (-2) = y).
+    { rewrite Heq. rewrite app_nth2 by lia. replace (n - length l1)%nat with 1%nat by lia. reflexivity. }
+    assert (Hls : length s = (n + 1 + length l2)%nat).
+    { rewrite Heq, app_length. cbn [length]. lia. }
+    destruct Hcut as [Hcut|Hcut]; [lia|]. rewrite Hy in Hcut.
+    assert (HDy : D <= y).
+    { rewrite Heq in Hs. apply SS_split in Hs. destruct Hs as [_ H2]. inversion H2; assumption. }
+    assert (H2 : Forall (fun z => y <= z) l2).
+    { rewrite Heq in Hs. change (l1 ++ D :: y :: l2) with (l1 ++ [D] ++ y :: l2) in Hs.
+      rewrite app_assoc in Hs. apply SS_split in Hs. tauto. }
+    rewrite Heq, filter_app, Hfl1. cbn [filter].
+    replace (D <=? D) with true by lia. replace (y <=? D) with false by lia.
+    rewrite (filter_none_Z (fun x => x <=? D) l2).
+    + rewrite app_length. cbn [length]. lia.
+    + eapply Forall_impl; [|exact H2]. cbv beta. intros a Ha. lia.
+Qed.
+
+Lemma filter_ext_in_Z (f g : Z -> bool) l : (forall x, In x l -> f x = g x) -> filter f l = filter g l.
+Proof.
+  induction l as [|x l IH]; intros H; cbn [filter]; [reflexivity|].
+  rewrite (H x (or_introl eq_refl)), IH; [reflexivity|]. intros y Hy. apply H. right; exact Hy.
+Qed.
+
+Lemma filter_zrange_nth (f : Z -> bool) dd :
+  length (filter (fun ch => f (nth (Z.to_nat ch) dd (-1))) (zrange 0 (length dd))) = length (filter f dd).
+Proof.
+  induction dd as [|x dd IH] using rev_ind; [reflexivity|].
+  rewrite app_length. cbn [length]. rewrite zrange_app, !filter_app, !app_length.
+  f_equal.
+  - rewrite <- IH. f_equal. apply filter_ext_in_Z. intros ch Hch. apply zrange_ge in Hch.
+    rewrite app_nth1 by lia. reflexivity.
+  - cbn [zrange filter]. rewrite Z.add_0_l, Nat2Z.id, app_nth2 by lia. rewrite Nat.sub_diag. cbn [nth].
+    destruct (f x); reflexivity.
+Qed.
+
+Theorem boundary_ok_NoTie d b : boundary_ok d = true -> (b < n_channels d)%nat ->
+  length (d_py d) = n_channels d -> NoTie d b.
+Proof.
+  intros Hbo Hb Hpy. destruct (sorted_dists_spec d b) as [Hperm Hss].
+  destruct (cut_of_is_kth d b Hb Hpy) as (_ & _ & Hlen).
+  pose proof (Permutation_length Hperm) as Hl2.
+  unfold boundary_ok in Hbo. cbv zeta in Hbo. rewrite forallb_forall in Hbo.
+  specialize (Hbo b). rewrite in_seq in Hbo. specialize (Hbo (conj (Nat.le_0_l b) Hb)).
+  apply andb_true_iff in Hbo. destruct Hbo as [_ Hbo].
+  change (Z.to_nat n_closest_channels) with 12%nat in Hbo.
+  assert (Hk : (1 <= n_keep d <= length (sorted_dists d b))%nat).
+  { unfold n_keep, n_closest_channels. change (Z.to_nat 12) with 12%nat. lia. }
+  unfold NoTie, zcount. f_equal. unfold dist_of. rewrite <- Hlen.
+  rewrite (filter_zrange_nth (fun x => x <=? cut_of d b) (dists_from d b)).
+  rewrite <- (filter_len_perm _ _ _ Hperm). unfold cut_of.
+  apply sorted_cut_count; [exact Hss|exact Hk|].
+  destruct (n_channels d <=? 12)%nat eqn:E.
+  - left. apply Nat.leb_le in E. unfold n_keep, n_closest_channels. change (Z.to_nat 12) with 12%nat. lia.
+  - right. apply Nat.leb_gt in E. apply negb_true_iff in Hbo.
+    assert (Hnk : n_keep d = 12%nat).
+    { unfold n_keep, n_closest_channels. change (Z.to_nat 12) with 12%nat. lia. }
+    rewrite Hnk. change (12 - 1)%nat with 11%nat. lia.
+Qed.
+Print Assumptions boundary_ok_NoTie.
+
 (* ---------- non-vacuity: the 16-channel linear probe of Corr.ex_line, peak 8, tie between channels 2 and 14 ---------- *)
 Example ex_line_sound :
   peak_chan ex_line false 0 = Some 8%nat /\ cut_of ex_line 8 = 14400 /\
